@@ -128,6 +128,10 @@ def ref_fields(b):
 
 
 # --------------------------------------------------------------------------- session scaffolding
+class BusyLoop(RuntimeError):
+    pass
+
+
 class RecLogger:
     """Logger stand-in: swallowed exceptions become observable."""
 
@@ -148,6 +152,8 @@ class RecLogger:
     def exception(self, *a, **k):
         e = sys.exc_info()[1]
         self.exceptions.append(type(e).__name__ + ": " + str(e)[:80])
+        if len(self.exceptions) > 40:
+            raise BusyLoop("a library task keeps failing without ever suspending")
 
 
 class Writer:
